@@ -53,11 +53,11 @@ _IDENT = ['top1', 'tie', 'cmident', 'pdslice', 'cmreject']
 MIN_HITS = {
     'quick': dict({f'mon:{f}': 60 for f in FAMILY.values()}, **{f'mon:{f}': 40 for f in _IDENT},
                   **{'edge:tie': 100, 'edge:fully-masked': 60, 'edge:k<1': 40, 'edge:k>=C': 40, 'edge:logits-mask': 40, 'edge:logits-mask-finite-bias': 40, 'pdslice:overflowing-example': 5,
-                     'edge:extreme': 60, 'edge:per-position': 40, 'edge:masked-token': 100, 'hit:numpy-inputs': 800, 'hit:x64-metric': 150, 'hit:half-precision-scores': 40, 'hit:narrow-target-dtype': 400}),
+                     'edge:extreme': 60, 'edge:per-position': 40, 'edge:masked-token': 100, 'hit:numpy-inputs': 800, 'hit:stat-merged-with-itself': 3000, 'hit:x64-metric': 150, 'hit:half-precision-scores': 40, 'hit:narrow-target-dtype': 400}),
     'thorough': dict({f'mon:{f}': 600 for f in FAMILY.values()}, **{f'mon:{f}': 400 for f in _IDENT},
                      **{'edge:tie': 1000, 'edge:fully-masked': 600, 'edge:k<1': 400, 'edge:k>=C': 400,
                         'edge:logits-mask': 400, 'edge:logits-mask-finite-bias': 400, 'pdslice:overflowing-example': 50, 'edge:extreme': 600, 'edge:per-position': 400,
-                        'edge:masked-token': 1000, 'hit:numpy-inputs': 15000, 'hit:x64-metric': 3000, 'hit:half-precision-scores': 800, 'hit:narrow-target-dtype': 8000}),
+                        'edge:masked-token': 1000, 'hit:numpy-inputs': 15000, 'hit:stat-merged-with-itself': 30000, 'hit:x64-metric': 3000, 'hit:half-precision-scores': 800, 'hit:narrow-target-dtype': 8000}),
 }
 
 
@@ -288,6 +288,25 @@ NO_PRED = ('SequenceTokenCount', 'SequenceCount', 'SequenceTruncationRate', 'Seq
 _EDGE_COUNTER = {'negative-k': 'k<1', 'zero-k': 'k<1', 'k-ge-classes': 'k>=C'}
 
 
+def jax_leaves(x):
+  import jax
+  return jax.tree_util.tree_leaves(x)
+
+
+def _doubling_fits(field, ref):
+  """Twice the reference is representable in the field's own dtype (else doubling legitimately overflows)."""
+  dt = np.asarray(field).dtype
+  if dt.kind == 'f' or str(dt) == 'bfloat16':
+    import jax.numpy as jnp
+    lim = float(jnp.finfo(dt).max)
+  elif dt.kind in 'iu':
+    lim = float(np.iinfo(dt).max)
+  else:
+    return True
+  r = np.asarray(ref, np.float64)
+  return bool(np.all(np.isfinite(r))) and (r.size == 0 or 2.0 * float(np.max(np.abs(r))) < 0.49 * lim)
+
+
 def compare(ctx, fam, got_stat, ref, flags, wit):
   """Judges one real statistic against the reference; mechanism key = family/<edge>-<what differs>."""
   edge = flags[0] if flags else 'plain'
@@ -317,6 +336,20 @@ def compare(ctx, fam, got_stat, ref, flags, wit):
       ctx.check(True, f'{fam}/{f}', '')
     if not ok:
       return False
+  # the statistic is a NUMBER in the metric's monoid, not merely something that compares equal to it (True == 1.0): merged
+  # with itself its fields are twice the reference fields
+  try:
+    _, twice = fields(got_stat.merge(got_stat))
+    bad = next((f for f in ('weight', 'accum') if f in ref and _doubling_fits(getattr(got_stat, f), ref[f])
+                and not xclose(twice[f], 2.0 * ref[f])), None)
+  except Exception as e:  # pylint: disable=broad-except
+    twice, bad = repr(e)[:200], 'merge-raises'
+  ctx.count('hit:stat-merged-with-itself')
+  if not ctx.check(bad is None, f'{fam}/stat-merged-with-itself-not-twice',
+                   'the single-example statistic merged with itself is not twice the reference statistic (its fields are '
+                   f'not numbers of the statistic\'s monoid: dtypes {[str(getattr(x, "dtype", type(x))) for x in jax_leaves(got_stat)]})',
+                   dict(w, merged_with_itself=twice, field=bad)):
+    return False
   res = np.asarray(got_stat.result()).astype(np.float64)
   rres = r_result(ref)
   if np.any(np.isnan(res)):
@@ -945,3 +978,5 @@ if __name__ == '__main__':
   _xproc.child_main(_xproc.family_handler(__name__))
 
 TECHNIQUE += '; cross-entropy metrics in a fresh interpreter under JAX_ENABLE_X64=1 at float64 accuracy; half-precision long sequences; narrow label dtypes'
+TECHNIQUE += '; every single-example statistic merged with itself must be twice the reference statistic'
+RULE += ' Wave-8 addition: every judged statistic is merged with itself and its fields compared with twice the reference fields (a statistic whose fields merely compare equal to the numbers, e.g. booleans, fails).'
